@@ -402,6 +402,50 @@ caller sees -/
 def run (h : Params) (program : Bytes) : List Ev :=
   (trace h program).filter Ev.visible
 
+/-! ### the same, call by call (the API as the caller uses it; `Props.C04.next_row_iteration`
+shows that it produces exactly `run`) -/
+
+/-- result of one `LineRows::next_row` call -/
+inductive Next where
+  | row (r : Row)      -- `Ok(Some((header, &row)))`
+  | none               -- `Ok(None)`
+  | err (e : Err)      -- `Err(e)`
+  | stuck
+  deriving DecidableEq, Repr
+
+/-- the `loop` inside `LineRows::next_row`; returns the result and the new `(self.row,
+self.instructions.input)` -/
+def nextRowLoop (h : Params) : Nat → Row → Bytes → Next × Row × Bytes
+  | 0, row, input => (.stuck, row, input)
+  | fuel + 1, row, input =>
+    if input.isEmpty then (.none, row, input)
+    else match parseInstr h input with
+      | .err e => (.err e, row, [])                 -- `self.input.empty()`
+      | .panic _ => (.stuck, row, input)
+      | .diverge => (.stuck, row, input)
+      | .ok (ins, rest) =>
+        match execute h row ins with
+        | (row, .err e) => (.err e, row, rest)
+        | (row, .noEmit) => nextRowLoop h fuel row rest
+        | (row, .emit) =>
+          if row.tombstone then nextRowLoop h fuel (reset h row) rest
+          else (.row row, row, rest)
+
+/-- `LineRows::next_row`: `self.row.reset(header)`, then the loop -/
+def nextRow (h : Params) (row : Row) (input : Bytes) : Next × Row × Bytes :=
+  nextRowLoop h (input.length + 1) (reset h row) input
+
+/-- the caller's loop: `next_row()` until `Ok(None)`, everything it returned -/
+def collect (h : Params) : Nat → Row → Bytes → List Ev
+  | 0, _, _ => [.stuck]
+  | fuel + 1, row, input =>
+    match nextRow h row input with
+    | (.none, _, _) => []
+    | (.stuck, _, _) => [.stuck]
+    | (.row r, row, input) => .row r :: collect h fuel row input
+    | (.err e, row, input) => .err e :: collect h fuel row input
+
+
 /-- `LineInstructions::next_instruction` until `Ok(None)` (`header.instructions()`); the first
 error ends the iteration (the input is emptied) -/
 def decodeAll (h : Params) : Nat → Bytes → Out (List Instr)
@@ -608,24 +652,26 @@ structure FileAcc where
   md5 : Bytes := List.replicate 16 0
   source : Option AttrVal := none
 
+/-- the `match format.content_type { … }` of `parse_file_v5`: what one field does to the entry -/
+def FileAcc.update (acc : FileAcc) (ct : Nat) (v : AttrVal) : FileAcc :=
+  if ct = 1 then { acc with path := some v }
+  else if ct = 2 then (match v.udataValue with | some n => { acc with dirIndex := n } | none => acc)
+  else if ct = 3 then (match v.udataValue with | some n => { acc with timestamp := n } | none => acc)
+  else if ct = 4 then (match v.udataValue with | some n => { acc with size := n } | none => acc)
+  else if ct = 5 then
+    (match v with
+     | .block b => if b.length = 16 then { acc with md5 := b } else acc
+     | _ => acc)
+  else if ct = 0x2001 then { acc with source := some v }
+  else acc
+
 /-- `parse_file_v5` -/
 def parseFileV5 (e : Endian) (format : Format) :
     List EntryFormat → FileAcc → Bytes → Out (FileAcc × Bytes)
   | [], acc, bs => .ok (acc, bs)
   | (ct, form) :: fs, acc, bs => do
     let (v, bs) ← parseAttribute e format form bs
-    let acc : FileAcc :=
-      if ct = 1 then { acc with path := some v }
-      else if ct = 2 then (match v.udataValue with | some n => { acc with dirIndex := n } | none => acc)
-      else if ct = 3 then (match v.udataValue with | some n => { acc with timestamp := n } | none => acc)
-      else if ct = 4 then (match v.udataValue with | some n => { acc with size := n } | none => acc)
-      else if ct = 5 then
-        (match v with
-         | .block b => if b.length = 16 then { acc with md5 := b } else acc
-         | _ => acc)
-      else if ct = 0x2001 then { acc with source := some v }
-      else acc
-    parseFileV5 e format fs acc bs
+    parseFileV5 e format fs (acc.update ct v) bs
 
 /-- `for _ in 0..count { include_directories.push(parse_directory_v5(..)?) }` -/
 def parseDirsV5 (e : Endian) (format : Format) (fmt : List EntryFormat) :
